@@ -275,9 +275,14 @@ private:
             stream_.state_.store(
                 state::source_next_active, std::memory_order_relaxed);
             UNIFEX_TRY {
+              // If stop is requested right now the callback runs inside its
+              // constructor and completes this operation with done; the
+              // receiver may destroy the operation, so use only the stream
+              // from here on.
+              auto& strm = stream_;
               stopCallback_.construct(
                   std::move(stopToken), cancel_next_callback{stream_});
-              unifex::start(stream_.nextOp_.get());
+              unifex::start(strm.nextOp_.get());
             }
             UNIFEX_CATCH(...) {
               stream_.nextReceiver_ = nullptr;
